@@ -182,3 +182,130 @@ func H_C11_lockDiscipline() {
 	}
 	wg.Wait()
 }
+
+// c11Exec runs an Execute-only operation (template parsed beforehand) and returns what it
+// rendered and whether it failed.
+var c11ExecOps = []struct {
+	src  string
+	data interface{}
+}{
+	{`{{ g }}|{{ lower("X") }}`, nil},
+	{`{{ nope }}`, nil},
+	{`{{ .F }}`, c11T1{1}},
+	{`{{ .G }}{{ .Nope }}`, &c11T2{"x"}},
+	{`{{ isset(g, .F) }}`, c11T1{1}},
+	{`{{ include "/t.jet" }}`, nil},
+	{`{{ .Promoted }}{{ .H }}`, c11T3{&C11Emb{1}, 2}},
+	{`{{ range i, v := s }}{{ i }}{{ v }}{{ end }}{{ try }}{{ nope }}{{ catch }}c{{ end }}`, nil},
+	{`{{ block b(p=1) }}[{{ p }}]{{ end }}{{ yield b(p=2) }}`, nil},
+}
+
+func c11Exec(t *Template, k int) string {
+	var b bytes.Buffer
+	vars := make(VarMap)
+	vars.Set("s", []string{"a", "b"})
+	if err := t.Execute(&b, vars, c11ExecOps[k].data); err != nil {
+		return b.String() + "<error>"
+	}
+	return b.String()
+}
+
+// H_C11_schedules: two goroutines, each performing one of the 22 operations (symbolic
+// choice) on one Set / loader, under every schedule in which the second operation starts
+// at any synchronisation or blocking point of the first (either order), blocked goroutines
+// yield in FIFO order, and (thorough tier) one further preemptive switch happens at any
+// synchronisation operation: no two conflicting memory accesses are unordered
+// (vector-clock happens-before detector over every cell the interpreter touches), no
+// deadlock, no panic. Natively the same pair runs many times under the Go race detector.
+//
+//gosym:reach done
+//gosym:opts maxviol=200 maxpaths=600000 wall=1500
+func H_C11_schedules() {
+	l := NewInMemLoader()
+	l.Set("/t.jet", `{{ g }}`)
+	set := NewSet(l)
+	set.AddGlobal("g", 0)
+	a := ndChoice("op1", len(c11Ops))
+	b := ndChoice("op2", len(c11Ops))
+	reps := 1
+	if !vfSymbolic() {
+		reps = 400
+	}
+	vfRace(vfTier())
+	ops := []string{c11Ops[a], c11Ops[b]}
+	if !vfSymbolic() {
+		ops = append(ops, c11Ops[a], c11Ops[b]) // native stress: two goroutines per operation
+	}
+	var wg sync.WaitGroup
+	for _, op := range ops {
+		wg.Add(1)
+		go func(op string) {
+			defer wg.Done()
+			for k := 0; k < reps; k++ {
+				c11Do(set, l, op)
+			}
+		}(op)
+	}
+	wg.Wait()
+	vfReach("done")
+}
+
+// H_C11_execAlone: two goroutines execute already parsed templates (symbolic choice among
+// nine: globals, missing names, fields resolved through the struct cache for the first
+// time, include of a not yet loaded template, range, try/catch, block/yield) concurrently,
+// under every schedule in which the second starts at any synchronisation point of the
+// first (either order) plus (thorough tier) one further preemptive switch: no race,
+// and each Execute produces exactly the output and error it produces when run alone.
+//
+//gosym:reach done
+//gosym:opts maxviol=200 maxpaths=600000 wall=1500
+func H_C11_execAlone() {
+	l := NewInMemLoader()
+	l.Set("/t.jet", `{{ g }}`)
+	set := NewSet(l)
+	set.AddGlobal("g", 0)
+	a := ndChoice("t1", len(c11ExecOps))
+	b := ndChoice("t2", len(c11ExecOps))
+	ta, err1 := set.Parse("/a.jet", c11ExecOps[a].src)
+	tb, err2 := set.Parse("/b.jet", c11ExecOps[b].src)
+	if err1 != nil || err2 != nil {
+		vfAssert(false, "templates parse")
+		return
+	}
+	// solo results on an identical, separate Set (so that nothing is warmed up here)
+	solo := func(k int) string {
+		l2 := NewInMemLoader()
+		l2.Set("/t.jet", `{{ g }}`)
+		s2 := NewSet(l2)
+		s2.AddGlobal("g", 0)
+		t, err := s2.Parse("/s.jet", c11ExecOps[k].src)
+		if err != nil {
+			return "<parse>"
+		}
+		return c11Exec(t, k)
+	}
+	wantA, wantB := solo(a), solo(b)
+	reps := 1
+	if !vfSymbolic() {
+		reps = 200
+	}
+	vfRace(vfTier())
+	var gotA, gotB string
+	var wg sync.WaitGroup
+	wg.Add(2)
+	go func() {
+		defer wg.Done()
+		for k := 0; k < reps; k++ {
+			gotA = c11Exec(ta, a)
+		}
+	}()
+	go func() {
+		defer wg.Done()
+		for k := 0; k < reps; k++ {
+			gotB = c11Exec(tb, b)
+		}
+	}()
+	wg.Wait()
+	vfReach("done")
+	vfAssert(gotA == wantA && gotB == wantB, "each concurrent Execute produces exactly what it produces when run alone")
+}
